@@ -45,7 +45,7 @@ def strategy(tier):
         whole = count or y_dtype == "int"
         y = [[draw(st.integers(0 if count else 1, 60)) if whole else draw(S.fl(0.05, 50.0, 4)) for _ in range(p)] for _ in range(n)]
         yhat = [[draw(S.fl(0.05, 60.0, 4)) for _ in range(p)] for _ in range(n)]
-        sform = draw(st.sampled_from(["default", "scalar", "array", "special"]))
+        sform = draw(st.sampled_from(["default", "scalar", "array", "special", "explicit-none"]))
         spread = None
         if kind in ("Normal", "Gamma", "NegBinom"):
             if sform == "scalar":
@@ -56,7 +56,8 @@ def strategy(tier):
                 spread = {"Normal": 1.0, "Gamma": 2.0, "NegBinom": 1.0}[kind]
         wform = draw(st.sampled_from(["none", "none", "array"])) if kind in ("Square", "Normal") else "none"
         w = [[draw(S.fl(0.1, 3.0, 3)) for _ in range(p)] for _ in range(n)] if wform == "array" else None
-        return {"kind": kind, "layout": layout, "y": y, "yhat": yhat, "spread": spread, "weights": w, "y_dtype": y_dtype}
+        return {"kind": kind, "layout": layout, "y": y, "yhat": yhat, "spread": spread, "weights": w, "y_dtype": y_dtype,
+                "spread_none": sform == "explicit-none", "weights_none": draw(st.booleans())}
     return case()
 
 
@@ -88,6 +89,10 @@ def oracle(case, rec):
     kw = {}
     if kind in ("Normal", "Gamma", "NegBinom") and spread is not None:
         kw[{"Normal": "sigma", "Gamma": "shape", "NegBinom": "k"}[kind]] = sp_arr if sp_arr is not None else spread
+    elif kind in ("Normal", "Gamma", "NegBinom") and case.get("spread_none"):
+        # the optional spread passed explicitly as None must mean the documented default, exactly like leaving it out
+        kw[{"Normal": "sigma", "Gamma": "shape", "NegBinom": "k"}[kind]] = None
+        rec.label("spread:explicit-None")
     y_arg = y.copy()
     if case.get("y_dtype") == "int" and np.all(y == np.rint(y)):
         y_arg = np.rint(y).astype(np.int64)
